@@ -15,9 +15,11 @@
 EXTENDS BigNat, FiniteSets, Json, IOUtils, TLC
 
 VARIABLES l, leaves, S, total, exp, expSet, inflight, okRet, loAt, wallAt, lastT, fin, obag, pend, fired,
-          endSeen, bad
+          endSeen, bad,
+          pastUnl,   \* some Next() has already RETURNED a result that lies behind the last unlimited part
+          pastAt     \* [g -> value of pastUnl when g's Left() call began]
 
-vars == <<l, leaves, S, total, exp, expSet, inflight, okRet, loAt, wallAt, lastT, fin, obag, pend, fired, endSeen, bad>>
+vars == <<l, leaves, S, total, exp, expSet, inflight, okRet, loAt, wallAt, lastT, fin, obag, pend, fired, endSeen, bad, pastUnl, pastAt>>
 
 Trace == ndJsonDeserialize(IOEnv.VERIF_TRACE)
 Ev == Trace[l]
@@ -48,6 +50,7 @@ Init == /\ l = 1 /\ leaves = <<>> /\ S = <<>> /\ total = <<>> /\ exp = <<>> /\ e
         /\ inflight = 0 /\ okRet = 0 /\ loAt = [g \in G |-> 0] /\ wallAt = [g \in G |-> <<>>]
         /\ lastT = [g \in G |-> <<>>] /\ fin = [g \in G |-> FALSE] /\ obag = <<>> /\ pend = {}
         /\ fired = FALSE /\ endSeen = FALSE /\ bad = {}
+        /\ pastUnl = FALSE /\ pastAt = [g \in G |-> FALSE]
 
 Tree == /\ Ev.ev = "tree"
         /\ leaves' = Ev.leaves
@@ -58,11 +61,12 @@ Tree == /\ Ev.ev = "tree"
         /\ inflight' = 0 /\ okRet' = 0 /\ loAt' = [g \in G |-> 0] /\ wallAt' = [g \in G |-> <<>>]
         /\ lastT' = [g \in G |-> <<>>] /\ fin' = [g \in G |-> FALSE] /\ obag' = <<>> /\ pend' = {}
         /\ fired' = FALSE /\ endSeen' = FALSE
+        /\ pastUnl' = FALSE /\ pastAt' = [g \in G |-> FALSE]
         /\ UNCHANGED bad
 
 CallN == /\ Ev.ev = "call" /\ Ev.op = "N"
          /\ inflight' = inflight + 1
-         /\ UNCHANGED <<leaves, S, total, exp, expSet, okRet, loAt, wallAt, lastT, fin, obag, pend, fired, endSeen, bad>>
+         /\ UNCHANGED <<leaves, S, total, exp, expSet, okRet, loAt, wallAt, lastT, fin, obag, pend, fired, endSeen, bad, pastUnl, pastAt>>
 
 RetNok == /\ Ev.ev = "ret" /\ Ev.op = "N" /\ Ev.ok
           /\ inflight' = inflight - 1
@@ -76,7 +80,8 @@ RetNok == /\ Ev.ev = "ret" /\ Ev.op = "N" /\ Ev.ok
                         \cup Flag(~fin[Ev.g], "TokenAfterFinish")
                         \cup Flag(Leq(Ev.t, total), "TokenAfterEnd")
                         \cup Flag(Ev.t \in expSet \/ InUnlWindow(Ev.t), "UnexpectedToken")
-          /\ UNCHANGED <<leaves, S, total, exp, expSet, loAt, wallAt, fin, pend, fired, endSeen>>
+          /\ pastUnl' = (pastUnl \/ (HasUnl /\ Leq(LastUnlEnd, Ev.t)))     \* a token of a part behind the last unlimited one
+          /\ UNCHANGED <<leaves, S, total, exp, expSet, loAt, wallAt, fin, pend, fired, endSeen, pastAt>>
 
 RetNend == /\ Ev.ev = "ret" /\ Ev.op = "N" /\ ~Ev.ok
            /\ inflight' = inflight - 1
@@ -86,27 +91,34 @@ RetNend == /\ Ev.ev = "ret" /\ Ev.op = "N" /\ ~Ev.ok
            /\ bad' = bad \cup Flag(~Ev.neg /\ Ev.t = total, "FinishTime")
                          \cup Flag(Leq(lastT[Ev.g], Ev.t), "CallerMonotone")
                          \cup Flag(fired, "OnFinishBeforeEndObserved")
-           /\ UNCHANGED <<leaves, S, total, exp, expSet, okRet, loAt, wallAt, obag, pend, fired>>
+           /\ pastUnl' = TRUE
+           /\ UNCHANGED <<leaves, S, total, exp, expSet, okRet, loAt, wallAt, obag, pend, fired, pastAt>>
 
 CallL == /\ Ev.ev = "call" /\ Ev.op = "L"
          /\ loAt' = [loAt EXCEPT ![Ev.g] = okRet]
          /\ wallAt' = [wallAt EXCEPT ![Ev.g] = Ev.wall]
-         /\ UNCHANGED <<leaves, S, total, exp, expSet, inflight, okRet, lastT, fin, obag, pend, fired, endSeen, bad>>
+         /\ pastAt' = [pastAt EXCEPT ![Ev.g] = pastUnl]
+         /\ UNCHANGED <<leaves, S, total, exp, expSet, inflight, okRet, lastT, fin, obag, pend, fired, endSeen, bad, pastUnl>>
 
 RetL == /\ Ev.ev = "ret" /\ Ev.op = "L"
         /\ pend' = IF Ev.left >= 0 THEN pend \cup {[r |-> Ev.left, lo |-> loAt[Ev.g], hi |-> okRet + inflight, at |-> l]}
                    ELSE pend
         /\ endSeen' = (endSeen \/ Ev.left = 0)
         /\ bad' = bad \cup Flag(Ev.left # 0 \/ fired, "OnFinishBeforeEndObserved")
-                      \* negative only while the total is genuinely unknown: an unlimited part had not
-                      \* finished when the call began
-                      \cup Flag(Ev.left >= 0 \/ (HasUnl /\ Lt(wallAt[Ev.g], LastUnlEnd)), "LeftNegativeOnlyIfUnknown")
-        /\ UNCHANGED <<leaves, S, total, exp, expSet, inflight, okRet, loAt, wallAt, lastT, fin, obag, fired>>
+                      \* negative only while the total is genuinely unknown: the schedule has an unlimited part and,
+                      \* when the call began, the composite had not yet been seen behind the last one.  (The nominal
+                      \* end instant of an unlimited part says nothing: callers that lag behind real time reach the part
+                      \* after its window, and until it is reached and found finished its length IS unknown to the object
+                      \* - Schedule.tla: LeafLeft(unl) = -1 while ~startd.)  Once a result from behind the last unlimited
+                      \* part has been returned every remaining part is of known length.
+                      \cup Flag(Ev.left >= 0 \/ (HasUnl /\ ~pastAt[Ev.g]), "LeftNegativeOnlyIfUnknown")
+        /\ UNCHANGED pastUnl
+        /\ UNCHANGED <<leaves, S, total, exp, expSet, inflight, okRet, loAt, wallAt, lastT, fin, obag, fired, pastAt>>
 
 OnFinish == /\ Ev.ev = "onfinish"
             /\ fired' = TRUE
             /\ bad' = bad \cup Flag(~fired, "OnFinishOnce")
-            /\ UNCHANGED <<leaves, S, total, exp, expSet, inflight, okRet, loAt, wallAt, lastT, fin, obag, pend, endSeen>>
+            /\ UNCHANGED <<leaves, S, total, exp, expSet, inflight, okRet, loAt, wallAt, lastT, fin, obag, pend, endSeen, pastUnl, pastAt>>
 
 \* end of a run: the schedule was drained, so the total number of tokens is known
 End == /\ Ev.ev = "end"
@@ -115,7 +127,7 @@ End == /\ Ev.ev = "end"
                      \cup Flag(\A t \in expSet : CntO(t) >= CntE(t), "TokenLost")
                      \cup Flag(\A t \in expSet : CntO(t) > CntE(t) => InUnlWindow(t), "TokenDuplicated")
                      \cup Flag(fired = endSeen, "OnFinishOnce")
-       /\ UNCHANGED <<leaves, S, total, exp, expSet, inflight, okRet, loAt, wallAt, lastT, fin, obag, pend, fired, endSeen>>
+       /\ UNCHANGED <<leaves, S, total, exp, expSet, inflight, okRet, loAt, wallAt, lastT, fin, obag, pend, fired, endSeen, pastUnl, pastAt>>
 
 Next == /\ l <= Len(Trace)
         /\ l' = l + 1
